@@ -196,6 +196,16 @@ def toks(s, prefix):
     return out
 
 
+def _plain_fn(): return 7
+
+
+def _exc_num(text):
+    """payload exceptions are ValueError('x<n>'); anything else (a refused request) is 0"""
+    import re
+    m = re.search(r"ValueError\('x(\d+)'\)", text)
+    return int(m.group(1)) if m else 0
+
+
 def run_dispatch_seq(rp, seq):
     """several requests in a row in ONE process (as in a persistent rank); returns per request what
     was reported and what the environment / stdio looked like afterwards"""
@@ -209,19 +219,28 @@ def run_dispatch_seq(rp, seq):
         for i, (mode, pl, tenv) in enumerate(seq):
             PAYLOADS[i] = payload_fn(pl)
             td = {'mode': mode, 'environment': {'C20K%d' % k: 'v%d' % v for k, v in tenv}, 'args': [], 'kwargs': {}}
-            if mode == 'task.function':
+            if mode == 'task.function' and pl.get('unresolved') == 'missing':
+                td['function'] = 'c20_no_such_callable_%d' % i                 # cannot be resolved
+            elif mode == 'task.function' and pl.get('unresolved') == 'pytask_args':
+                td['function'] = rp.PythonTask(_plain_fn, (), {}); td['args'] = [1]  # a PythonTask must not come with args
+            elif mode == 'task.function':
                 setattr(w, 'c20_payload_%d' % i, PAYLOADS[i]); td['function'] = 'c20_payload_%d' % i
             elif mode == 'task.eval':
                 td['code'] = "__import__('c20_payloads').run(%d)" % i
             elif mode == 'task.exec':
                 td['code'] = 'import c20_payloads\nreturn c20_payloads.run(%d)' % i; td['pre_exec'] = []
             task = {'uid': 'req.%d' % i, 'description': td}
-            if mode == 'task.function': r = asyncio.run(w._dispatch_func(task))
-            elif mode == 'task.eval':   r = w._dispatch_eval(task)
-            else:                       r = w._dispatch_exec(task)
+            try:
+                if mode == 'task.function': r = asyncio.run(w._dispatch_func(task))
+                elif mode == 'task.eval':   r = w._dispatch_eval(task)
+                else:                       r = w._dispatch_exec(task)
+            except Exception as ex:
+                # the dispatcher refused the request (DefaultWorker._dispatch reports it as failed)
+                r = ('', '', 1, None, ('x0', repr(ex)))
             o, e, ret, val, exc = r
+            if pl.get('unresolved'): e = ''          # (whether a refusal leaves a line on stderr is not compared)
             res.append({'out': toks(o, 'o'), 'err': toks(e, 'e'), 'ret': ret, 'val': val,
-                        'exc': int(exc[0].split("x")[-1].rstrip("')\"")) if exc[0] else None,
+                        'exc': _exc_num(exc[0]) if exc[0] else None,
                         'env': env_view(os.environ), 'cenv': c_env(), 'real': type(os.environ) is type(orig_environ),
                         'stdio_restored': sys.stdout is out0 and sys.stderr is err0})
     finally:
@@ -240,7 +259,14 @@ def gen_payload(rng):
           'edits': [[rng.randint(1, 4), rng.choice([None, rng.randint(1, 9), rng.randint(1, 9)])] for _ in range(rng.choice([0, 0, 1, 2]))],
           'rebinds': rng.random() < 0.15, 'returns': rng.randint(0, 99), 'raises': None}
     if rng.random() < 0.3: pl['raises'] = rng.randint(1, 9)
+    pl['unresolved'] = None
     return pl
+
+
+def gen_unresolved(rng):
+    """a function request that is refused before anything runs: unknown callable / PythonTask with args"""
+    return {'out': [], 'err': [], 'edits': [], 'rebinds': False, 'returns': 0, 'raises': 0,
+            'unresolved': rng.choice(['missing', 'pytask_args'])}
 
 
 def run_proc(rp, mode, out, err, code):
@@ -711,6 +737,10 @@ def run(ctx):
     for i in range(ctx.n(40, 1500)):
         seq = [(rng.choice(['task.function', 'task.eval', 'task.exec']), gen_payload(rng),
                 [[rng.randint(1, 4), rng.randint(1, 9)] for _ in range(rng.choice([0, 0, 1]))]) for _ in range(rng.randint(1, 4))]
+        # function requests that cannot be resolved, with an environment of their own
+        seq = [(m, pl, te) if not (m == 'task.function' and rng.random() < 0.3) else
+               (m, gen_unresolved(rng), [[rng.randint(1, 4), rng.randint(1, 9)] for _ in range(rng.choice([1, 1, 2]))])
+               for m, pl, te in seq]
         res = run_dispatch_seq(rp, seq)
         proc = {'env': [], 'cenv': [], 'real': True}
         for (mode, pl, tenv), r in zip(seq, res):
